@@ -65,6 +65,7 @@ type Defect struct {
 	Depth    int
 	Rejected bool // ggql may reject the whole document for this kind
 	Borrowed bool // unknown-field whose name is defined by some other type
+	KeyTaken bool // an earlier, valid selection of the same set has the same response key
 }
 
 func pick0(t *rapid.T, n int, label string) int { return rapid.IntRange(0, n-1).Draw(t, label) }
@@ -135,6 +136,7 @@ func inject(t *rapid.T, c *Case, kind string) (df Defect, ok bool) {
 		}
 		return sel
 	}
+	var twinSet *[]*hx.Sel // where the defective field went (its response key may be taken already)
 	switch kind {
 	case "unknown-field":
 		sr, found := pickSet(nil)
@@ -171,6 +173,7 @@ func inject(t *rapid.T, c *Case, kind string) (df Defect, ok bool) {
 		}
 		insertAt(t, sr.sels, sel)
 		df.Key, df.Con, df.Depth = "dfct", sr.con, sr.depth
+		twinSet = sr.sels
 	case "undeclared-arg":
 		sr, found := pickSet(func(sr setRef) bool { return len(fieldsWith(sr.con, func(*hx.Field) bool { return true })) > 0 })
 		if !found {
@@ -194,6 +197,7 @@ func inject(t *rapid.T, c *Case, kind string) (df Defect, ok bool) {
 		sel.Args = append(args, sel.Args[pos:]...)
 		insertAt(t, sr.sels, sel)
 		df.Key, df.Con, df.Depth = "dfct", sr.con, sr.depth
+		twinSet = sr.sels
 	case "omitted-required-arg":
 		req := func(f *hx.Field) bool {
 			for _, a := range f.Args {
@@ -226,6 +230,7 @@ func inject(t *rapid.T, c *Case, kind string) (df Defect, ok bool) {
 		}
 		insertAt(t, sr.sels, sel)
 		df.Key, df.Con, df.Depth = "dfct", sr.con, sr.depth
+		twinSet = sr.sels
 	case "unknown-directive", "misplaced-directive":
 		sr, found := pickSet(nil)
 		if !found {
@@ -354,6 +359,12 @@ func inject(t *rapid.T, c *Case, kind string) (df Defect, ok bool) {
 		}
 		insertAt(t, sr.sels, &hx.Sel{Kind: "spread", Name: "FBad"})
 		df.Key, df.Con, df.Depth, df.Rejected = "dfct", sr.con, sr.depth, true
+	}
+	if twinSet != nil && rapid.IntRange(0, 3).Draw(t, "keyTakenBefore") == 0 {
+		// the response key of the defective selection was selected before, validly (a meta field: no
+		// resolver of the application is involved)
+		*twinSet = append([]*hx.Sel{{Kind: "field", Alias: "dfct", Name: "__typename"}}, *twinSet...)
+		df.KeyTaken = true
 	}
 	df.ConKind = s.KindOf(df.Con)
 	if df.Con == "Query" || df.Con == "Mutation" {
@@ -568,7 +579,7 @@ func TestC10(t *testing.T) {
 	defer run.Flush()
 	classes := func(cc *c10Case, res map[string]interface{}) (bool, []string) {
 		df := cc.Defect
-		cl := []string{"strategy=" + stratName(cc.Case), "defect=" + df.Kind, "container=" + df.ConKind,
+		cl := []string{"strategy=" + stratName(cc.Case), "defect=" + df.Kind, "container=" + df.ConKind, fmt.Sprintf("response-key-selected-before=%v", df.KeyTaken),
 			fmt.Sprintf("%s/%s/%s", df.Kind, df.ConKind, stratName(cc.Case))}
 		if d, has := res["data"]; has && d != nil {
 			cl = append(cl, "partial-data-kept")
